@@ -1,0 +1,22 @@
+//go:build verif
+
+package operator
+
+import (
+	"slices"
+)
+
+// VerifCheckpointSlot reports the operator's checkpoint slot (o.checkpoint): whether one
+// exists, its id, and the source runners whose barrier is still awaited (sorted).
+func (o *Operator) VerifCheckpointSlot() (present bool, id uint64, waiting []string) {
+	o.mu.RLock()
+	defer o.mu.RUnlock()
+	if o.checkpoint == nil {
+		return false, 0, nil
+	}
+	for sr := range o.checkpoint.srIDs {
+		waiting = append(waiting, sr)
+	}
+	slices.Sort(waiting)
+	return true, o.checkpoint.checkpointID, waiting
+}
